@@ -218,39 +218,99 @@ structure PzIn (α : Type) where
   ps : List (PParam α)
 
 structure PzOut (α : Type) where
-  lgamma : Nat → α     -- `LGAMMA[i]` (natural log)
+  lgamma : Nat → α     -- `LGAMMA[i]` (natural log; `sit_LGAMMA[i]` is log10)
   cosmot : α
   aw : α
   osum : α
+  osmot : α            -- `OSMOT` before the division by `OSUM`
 
-/-- `pitzer()` for `patm_x <= 1` (the pressure-dependent `B1`, `B2` of `F1`, `F2` are outside the model) -/
-def pitzer (x : PzIn α) : PzOut α :=
-  let present : Nat → Bool := fun k => decide (x.minTotal < x.m k) || (x.icon && decide (k = x.ic))
-  let bigZ := sumTo x.n fun k => x.m k * absv (x.z k)
-  let osum := sumTo x.n fun k => x.m k
+/-- `IPRSNT[k]` -/
+def presentOf (x : PzIn α) : Nat → Bool :=
+  fun k => decide (x.minTotal < x.m k) || (x.icon && decide (k = x.ic))
+
+/-- `BIGZ = Σ M|z|`, `OSUM = Σ M` -/
+def bigZOf (x : PzIn α) : α := sumTo x.n fun k => x.m k * absv (x.z k)
+def osumOf (x : PzIn α) : α := sumTo x.n fun k => x.m k
+
+/-- pressure correction of the Debye–Hückel `b` for univalent (`B1`) and divalent (`B2`) ions, `patm_x > 1`:
+`pap1 = (7e-5 + 1.93e-9 (TK − 250)²)·patm`, `pap2 = 9.65e-10 (TK − 263)^2.773 · patm^0.623` for `TK > 263`
+(otherwise `B2` uses `pap1`), each capped at 0.2; the powers enter as numbers -/
+structure PCorr (α : Type) where
+  active : Bool        -- `patm_x > 1.0`
+  b1 : α
+  b2 : α
+
+/-- the Debye–Hückel function `−A0 (√I/(1 + b√I) + 2 ln(1 + b√I)/b)` -/
+def fDH (a0 di b : α) : α := (-a0) * (di / (lit 1 + b * di) + lit 2 * ln (lit 1 + b * di) / b)
+
+/-- initial `OSMOT = −A0 I^{3/2}/(1 + 1.2 √I)` -/
+def osmot0 (a0 mu di : α) : α := (-a0) * (mu * di) / (lit 1 + lit (12 / 10) * di)
+
+/-- `F` after the parameter loop (the `F_var` of every parameter added to the Debye–Hückel start value `f0`) -/
+def fTotal (x : PzIn α) (f0 : α) : α := x.ps.foldl (fun a p => a + fVar p x.m x.mu x.useEtheta) f0
+
+def csumTotal (x : PzIn α) : α := x.ps.foldl (fun a p => a + csumOf p x.m) (lit 0)
+
+def osmotTotal (x : PzIn α) : α :=
+  x.ps.foldl (fun a p => a + (osConst p x.m (bigZOf x) (presentOf x) + osI p x.m x.mu x.useEtheta))
+    (osmot0 x.a0 x.mu (sqrt x.mu))
+
+/-- `GAMCLM`: the MacInnes reference (KCl) -/
+def gamclm (x : PzIn α) (f1 : α) : α :=
   let di := sqrt x.mu
-  let b : α := lit (12 / 10)
-  let f0 := (-x.a0) * (di / (lit 1 + b * di) + lit 2 * ln (lit 1 + b * di) / b)
   let xxx0 := lit 2 * di
   let xxx := (lit 1 - (lit 1 + xxx0 - xxx0 * xxx0 * lit (1 / 2)) * exp (-xxx0)) / (xxx0 * xxx0)
-  let gamclm0 := f0
-  let gamclm1 := match x.mcb0 with | some v => gamclm0 + x.mu * lit 2 * v | none => gamclm0
-  let gamclm2 := match x.mcb1 with | some v => gamclm1 + x.mu * lit 2 * v * xxx | none => gamclm1
-  let gamclm := match x.mcc0 with | some v => gamclm2 + lit (15 / 10) * v * x.mu * x.mu | none => gamclm2
-  let osmot0 := (-x.a0) * (x.mu * di) / (lit 1 + b * di)
-  let terms := allTerms x.ps x.m bigZ present x.useEtheta
-  let osmot := x.ps.foldl (fun a p => a + (osConst p x.m bigZ present + osI p x.m x.mu x.useEtheta)) osmot0
-  let csum := x.ps.foldl (fun a p => a + csumOf p x.m) (lit 0)
-  let f := x.ps.foldl (fun a p => a + fVar p x.m x.mu x.useEtheta) f0
-  let lg1 : Nat → α := fun k =>
-    let z0 := absv (x.z k)
-    let base := addTerms terms k (lit 0)
-    if isZero z0 then base else base + (z0 * z0 * f + z0 * csum)
-  let phimac := lg1 x.ic - gamclm
-  let lg2 : Nat → α := fun k => if x.icon then lg1 k + x.z k * phimac else lg1 k
+  let g1 := match x.mcb0 with | some v => f1 + x.mu * lit 2 * v | none => f1
+  let g2 := match x.mcb1 with | some v => g1 + x.mu * lit 2 * v * xxx | none => g1
+  match x.mcc0 with | some v => g2 + lit (15 / 10) * v * x.mu * x.mu | none => g2
+
+/-- `LGAMMA[k]` before the MacInnes scaling; `pc` selects `F1`/`F2` for |z| = 1 / 2 when `patm_x > 1` -/
+def lg1 (x : PzIn α) (pc : PCorr α) (k : Nat) : α :=
+  let di := sqrt x.mu
+  let b : α := lit (12 / 10)
+  let f0 := fDH x.a0 di b
+  let z0 := absv (x.z k)
+  let base := addTerms (allTerms x.ps x.m (bigZOf x) (presentOf x) x.useEtheta) k (lit 0)
+  let fsel : α :=
+    if pc.active then
+      (if isZero (z0 - lit 1) then fTotal x (if isZero pc.b1 then f0 else fDH x.a0 di pc.b1)
+       else if isZero (z0 - lit 2) then fTotal x (if isZero pc.b2 then f0 else fDH x.a0 di pc.b2)
+       else fTotal x f0)
+    else fTotal x f0
+  if isZero z0 then base else base + (z0 * z0 * fsel + z0 * csumTotal x)
+
+/-- `PHIMAC = LGAMMA[IC] − GAMCLM` (`GAMCLM` starts from `F1`) -/
+def phimac (x : PzIn α) (pc : PCorr α) : α :=
+  let di := sqrt x.mu
+  let f0 := fDH x.a0 di (lit (12 / 10))
+  let f1 := if pc.active && !isZero pc.b1 then fDH x.a0 di pc.b1 else f0
+  lg1 x pc x.ic - gamclm x f1
+
+/-- `pitzer()` -/
+def pitzerP (x : PzIn α) (pc : PCorr α) : PzOut α :=
+  let osum := osumOf x
+  let osmot := osmotTotal x
+  let ph := phimac x pc
   let cosmot := lit 1 + lit 2 * osmot / osum
-  let aw := exp ((-osum) * cosmot / lit (5550837 / 100000))
-  { lgamma := lg2, cosmot := cosmot, aw := aw, osum := osum }
+  { lgamma := fun k => if x.icon then lg1 x pc k + x.z k * ph else lg1 x pc k,
+    cosmot := cosmot, aw := exp ((-osum) * cosmot / lit (5550837 / 100000)), osum := osum, osmot := osmot }
+
+/-- `pitzer()` at `patm_x <= 1` -/
+def pitzer (x : PzIn α) : PzOut α := pitzerP x { active := false, b1 := lit (12 / 10), b2 := lit (12 / 10) }
+
+/-- `x^y` of the C library for `x > 0` -/
+def powf (x y : α) : α := exp (y * ln x)
+
+/-- the `B1`, `B2` of the block `if (patm_x > 1.0)` -/
+def pcorrOf (tk patm : α) : PCorr α :=
+  if lit 1 < patm then
+    let b : α := lit (12 / 10)
+    let cap := fun (v : α) => if lit (2 / 10) < v then lit (2 / 10) else v
+    let pap1 := (lit (7 / 100000) + lit (193 / 100000000000) * ((tk - lit 250) * (tk - lit 250))) * patm
+    let pap2 := if lit 263 < tk then (lit (965 / 1000000000000) * powf (tk - lit 263) (lit (2773 / 1000))) * powf patm (lit (623 / 1000))
+                else pap1
+    { active := true, b1 := b - cap pap1, b2 := b - cap pap2 }
+  else { active := false, b1 := lit (12 / 10), b2 := lit (12 / 10) }
 
 /-! ## SIT (`sit()`) -/
 
@@ -300,7 +360,7 @@ def sit (x : SitIn α) : PzOut α :=
     if isZero z0 then base else base + z0 * z0 * f
   let cosmot := lit 1 + osmot * ln10 / osum
   let aw := exp ((-osum) * cosmot / lit (5550837 / 100000))
-  { lgamma := lg, cosmot := cosmot, aw := aw, osum := osum }
+  { lgamma := lg, cosmot := cosmot, aw := aw, osum := osum, osmot := osmot }
 
 /-! ## dual numbers over `Rat`: first-order variations -/
 
@@ -325,14 +385,15 @@ instance (a b : Dual) : Decidable (a < b) := inferInstanceAs (Decidable (a.re < 
 instance (a b : Dual) : Decidable (a ≤ b) := inferInstanceAs (Decidable (a.re ≤ b.re))
 end Dual
 
-/-- transcendental functions on dual numbers act on the real part with derivative part 0: they are only ever
-applied to constants in the constant-coefficient virial part (which calls none of them) -/
+/-- transcendental functions on dual numbers: `sqrt`, `ln`, `exp` carry their derivative rules
+(`d√x = dx/(2√x)`, `d ln x = dx/x`, `d eˣ = eˣ dx`) — these are the *hypotheses* on the uninterpreted functions under which
+the Gibbs–Duhem theorem of the full `pitzer()` skeleton is proved; the other functions are not called by the Pitzer model -/
 def dualFns (f : TransFns Rat) : TransFns Dual where
   log10 := fun x => ⟨f.log10 x.re, 0⟩
   exp10 := fun x => ⟨f.exp10 x.re, 0⟩
-  ln := fun x => ⟨f.ln x.re, 0⟩
-  exp := fun x => ⟨f.exp x.re, 0⟩
-  sqrt := fun x => ⟨f.sqrt x.re, 0⟩
+  ln := fun x => ⟨f.ln x.re, x.eps / x.re⟩
+  exp := fun x => ⟨f.exp x.re, f.exp x.re * x.eps⟩
+  sqrt := fun x => ⟨f.sqrt x.re, x.eps / (2 * f.sqrt x.re)⟩
   sinh := fun x => ⟨f.sinh x.re, 0⟩
   cos := fun x => ⟨f.cos x.re, 0⟩
   acos := fun x => ⟨f.acos x.re, 0⟩
